@@ -31,7 +31,7 @@ Definition mkG (t x : option dim_gen) (newJ : Z -> Z) (w : bool) : rar_gen :=
   {| r_burnin := gen_rar_burnin_ok; r_period := gen_rar_period_ok; r_incr := gen_rar_incr; r_count := gen_rar_count;
      r_init_counter := gen_rar_init_counter; r_ctor_step := gen_rar_ctor_step; r_ctor_active := gen_rar_ctor_active;
      r_newJ := newJ; r_step_counter := gen_rar_step_counter; r_t := t; r_x := x;
-     r_wiring := gen_rar_trigger_wiring && w |}.
+     r_wiring := gen_rar_trigger_wiring && gen_rar_init_touches_only_the_counter && w |}.
 Definition G_rar_ode := mkG (Some dim_ode) None gen_rar_newJ_ode gen_rar_select_wiring_ode.
 Definition G_rar_statio := mkG None (Some dim_statio) gen_rar_newJ_statio gen_rar_select_wiring_statio.
 Definition G_rar_ns := mkG (Some dim_ns_t) (Some dim_ns_x) gen_rar_newJ_ns gen_rar_select_wiring_ns.
